@@ -2169,15 +2169,16 @@ impl<'store> FindTextSelectionsIter<'store> {
             TextSelectionOperator::Succeeds {
                 allow_whitespace, ..
             } => {
+                //found items end where we begin, or up to WHITESPACE_LIMIT positions *before* that
+                let begin = self.refset.begin().unwrap();
                 self.textseliters.push((
                     self.resource.range(
-                        self.refset.begin().unwrap(),
-                        self.refset.begin().unwrap()
-                            + if allow_whitespace {
-                                WHITESPACE_LIMIT + 1
-                            } else {
-                                1
-                            },
+                        if allow_whitespace {
+                            begin.saturating_sub(WHITESPACE_LIMIT)
+                        } else {
+                            begin
+                        },
+                        begin + 1,
                     ),
                     false, //search backwards!! end must be in range above
                 ));
